@@ -383,5 +383,5 @@ func runC04(r *Run) {
 	runThrough04(r)
 	// several clients at one cache plugin around the expiry of entries (c04burst.go)
 	runBursts04(r)
-	r.Finish("boundary grid of types x classes x 8 flag sets, then seeded queries (mostly valid, 20% bypass stream); each cacheable query with ~20 one-attribute variants; non-trivial = cacheable query / variant pair; distinct by full query text; then seeded sequences with 2-3 cache plugins (distinct or one instance twice; inline, jump or goto) and prefer_ipv4/prefer_ipv6, redirect or a question-rewriting plugin (type, name, class, AD, CD, DO; on a Copy() or in place) between them, 4-10 queries each entering at the head or at a later cache plugin, a probe behind every cache plugin; the observed store/hit events are replayed on the model's trace acceptor (one `chain` line per sequence), and seeded sequences of 2-3 cache plugins with no `[has_resp] accept` between them (a hit travels on through redirect or the rewriting plugin to the next cache plugin; only the upstream is behind !has_resp; every instance also reachable through a `cache -> upstream` sequence of its own), hits and stores observed by recorders in front of and behind every cache plugin (response object identity) and replayed on the same acceptor; before that, dump / reload batches (verif shims, dump_file + Close + NewCache, GET /dump + POST /load_dump) over pairs of wire-stable questions whose keys are 1-3 inserted header bytes apart (every offset x filling x which of the two was stored), both asked after the reload: an answer served from the cache must have been produced for the same question; events replayed on the same acceptor; finally rounds of 2-32 concurrent clients at one cache plugin (GOMAXPROCS 2 .. 2 x CPUs, with and without lazy_cache_ttl) asking 1-12 questions at the moment their entries run out (lifetimes of 100-600 us set through VerifInject, and one round of 150+ real 1 s TTLs stored through Exec), upstream answering or down, then 2-4 times as many other questions stored and everything asked again: every answer handed to a client carries the question it was produced for and must be for the question asked; store / hit events of 30 rounds replayed on the acceptor")
+	r.Finish("boundary grid of types x classes x 8 flag sets, then seeded queries (mostly valid, 20% bypass stream); each cacheable query with ~20 one-attribute variants; non-trivial = cacheable query / variant pair; distinct by full query text; then seeded sequences with 2-3 cache plugins (distinct or one instance twice; inline, jump or goto) and prefer_ipv4/prefer_ipv6, redirect or a question-rewriting plugin (type, name, class, AD, CD, DO; on a Copy() or in place) between them, 4-10 queries each entering at the head or at a later cache plugin, a probe behind every cache plugin; the observed store/hit events are replayed on the model's trace acceptor (one `chain` line per sequence), and seeded sequences of 2-3 cache plugins with no `[has_resp] accept` between them (a hit travels on through redirect or the rewriting plugin to the next cache plugin; only the upstream is behind !has_resp; every instance also reachable through a `cache -> upstream` sequence of its own), hits and stores observed by recorders in front of and behind every cache plugin (response object identity) and replayed on the same acceptor; a quarter of these cache plugins have lazy_cache_ttl, their entries are aged through VerifInject while an earlier cache's entry is alive, the background refresh (on a copy of the context that carries the earlier hit) is awaited and the questions are asked again; in a third of all these sequences the upstream answers NXDOMAIN / NODATA (to every name or depending on the name) with its answer number in the SOA serial, other types of the name asked afterwards; before that, dump / reload batches (verif shims, dump_file + Close + NewCache, GET /dump + POST /load_dump) over pairs of wire-stable questions whose keys are 1-3 inserted header bytes apart (every offset x filling x which of the two was stored), both asked after the reload: an answer served from the cache must have been produced for the same question; events replayed on the same acceptor; finally rounds of 2-32 concurrent clients at one cache plugin (GOMAXPROCS 2 .. 2 x CPUs, with and without lazy_cache_ttl) asking 1-12 questions at the moment their entries run out (lifetimes of 100-600 us set through VerifInject, and one round of 150+ real 1 s TTLs stored through Exec), upstream answering or down, then 2-4 times as many other questions stored and everything asked again: every answer handed to a client carries the question it was produced for and must be for the question asked; store / hit events of 30 rounds replayed on the acceptor")
 }
